@@ -22,25 +22,19 @@ type C19Case struct {
 	Planted []string          `json:"planted,omitempty"`
 }
 
-func genC19(r *gen.Rand, maxCalls int) *C19Case {
-	c := &C19Case{Files: map[string]string{}}
-	c.Sched = wire.Sched{Mode: "Hash", Seed: r.U64() >> 1, Coin: gen.PickAny(r, []float64{0, 0.5, 1})}
-	cfg := gen.AllOn(r)
-	if r.Chance(0.3) {
-		cfg = gen.SwarmProgCfg(r)
-	}
-	cfg.PBad = gen.PickAny(r, []float64{0, 0, 0.05})
-	cfg.PSelf = gen.PickAny(r, []float64{0, 0, 0, 0.1})
+// genStream draws the merge calls of a history: a base stream, further
+// layers derived from it, optionally a layered file chain.
+func genStream(r *gen.Rand, cfg gen.ProgCfg, files map[string]string, maxMerges int) ([]wire.Op, []string) {
+	var planted []string
 	child := gen.ChildCfg{Tree: cfg.Tree, Edits: r.Range(1, 3), PUseless: 0.03}
-
 	var merges []wire.Op
 	// base stream
 	nBase := r.Range(1, 3)
 	var prev []string
 	var prevTrees []any
 	for i := 0; i < nBase; i++ {
-		doc, planted := cfg.Program(r)
-		c.Planted = append(c.Planted, planted...)
+		doc, pl := cfg.Program(r)
+		planted = append(planted, pl...)
 		if m, ok := doc.(map[string]any); ok {
 			m["id"] = fmt.Sprintf("d%d", i)
 			if i > 0 && r.Chance(0.3) {
@@ -60,14 +54,14 @@ func genC19(r *gen.Rand, maxCalls int) *C19Case {
 						} else {
 							m["xref"] = map[string]any{"$merge": []any{map[string]any{"id": "d0"}, k}}
 						}
-						c.Planted = append(c.Planted, "crossdoc")
+						planted = append(planted, "crossdoc")
 					}
 				}
 			}
-			if i > 0 && r.Chance(0.15) {
+			if i > 0 && r.Chance(0.1) {
 				// an evaluation failure part-way through the stream
 				m["late"] = r.Pick("$required", "$merge:no.such", `$"{no.such}"`)
-				c.Planted = append(c.Planted, "evalfail")
+				planted = append(planted, "evalfail")
 			}
 		}
 		id := fmt.Sprintf("L0|doc%d", i)
@@ -96,27 +90,41 @@ func genC19(r *gen.Rand, maxCalls int) *C19Case {
 		prev, prevTrees = ids, trees
 	}
 	// a layered file chain
-	if r.Chance(0.25) {
-		base, planted := cfg.Program(r)
-		c.Planted = append(c.Planted, planted...)
+	if files != nil && r.Chance(0.25) {
+		base, pl := cfg.Program(r)
+		planted = append(planted, pl...)
 		ext := r.Pick("yaml", "json")
 		if s, ok := gen.StreamText(ext, []any{base}); ok {
-			c.Files["f."+ext] = s
+			files["f."+ext] = s
 			patch := child.Child(r, wire.Clone(base))
 			if r.Chance(0.5) {
 				patch["$match"] = nil // keep file documents apart from the stream
 			}
 			if s2, ok := gen.StreamText("yaml", []any{patch}); ok {
-				c.Files["f.g.yaml"] = s2
+				files["f.g.yaml"] = s2
 				op := wire.Op{Op: "MergeFileLayers", Path: "f.g.yaml"}
 				pos := r.Intn(len(merges) + 1)
 				merges = append(merges[:pos], append([]wire.Op{op}, merges[pos:]...)...)
 			}
 		}
 	}
-	if len(merges) > maxCalls-2 {
-		merges = merges[:maxCalls-2]
+	if len(merges) > maxMerges {
+		merges = merges[:maxMerges]
 	}
+	return merges, planted
+}
+
+func genC19(r *gen.Rand, maxCalls int) *C19Case {
+	c := &C19Case{Files: map[string]string{}}
+	c.Sched = wire.Sched{Mode: "Hash", Seed: r.U64() >> 1, Coin: gen.PickAny(r, []float64{0, 0.5, 1})}
+	cfg := gen.AllOn(r)
+	if r.Chance(0.3) {
+		cfg = gen.SwarmProgCfg(r)
+	}
+	cfg.PBad = gen.PickAny(r, []float64{0, 0, 0.05})
+	cfg.PSelf = gen.PickAny(r, []float64{0, 0, 0, 0.1})
+	merges, planted := genStream(r, cfg, c.Files, maxCalls-2)
+	c.Planted = planted
 	// observation calls interleaved
 	nObs := r.Range(2, maxCalls-len(merges))
 	ops := append([]wire.Op{}, merges...)
